@@ -760,7 +760,7 @@ class BigQueryParser(parser.Parser):
                 expr.set("query_column_to_search", query_column)
             else:
                 arg = self._parse_lambda()
-                if arg:
+                if arg and arg.this:
                     expr.set(arg.this.name, arg)
 
         return expr
